@@ -1,2 +1,629 @@
-use vcommon::Args;
-pub fn main(_args: Args) {}
+//! C18 — run-time operator evaluation matches the reference at every width.
+//!
+//! OpGen designs: `module Top` with input ports a, b, c (widths 1…300, signed/unsigned,
+//! concentrated at 63/64/65/127/128/129/255/256) and one output per expression; the
+//! expressions (depth <= 5, all operators, selects, concat/repeat, casts, if-expressions,
+//! shifts by wide amounts) sit in `assign`, `always_comb` and `always_ff` contexts.  Random /
+//! boundary 2-state values are driven under every engine `Config` and every engine's
+//! `Simulator::get` must equal bv4's evaluation of the same expression with IEEE §11.6 sizing
+//! (context = output width), which in turn must equal the analyzer's compile-time value of
+//! the same expression with the operands substituted as constants.
+//! A comparison is skipped (and counted) for 2-state engines when bv4's result has X/Z.
+
+use crate::c17::type_text;
+use crate::common::{module_vars, value_to_bv};
+use crate::vexpr::{Gen, GenCfg, VE, VarDecl, pick_known, pick_width, plain_literal, reduce, value_kind};
+use refmodel::bv4::{self, Bv};
+use std::sync::Arc;
+use vcommon::pipeline::{analyze_one, default_metadata};
+use vcommon::pool::{STACK_64M, fresh_thread, par_cases};
+use vcommon::rng::hash_str;
+use vcommon::{Args, Json, Rng, Run, json};
+use veryl_simulator::Config;
+use vgen::sim::{CycleIn, Stimulus, TVal, Trace, run as sim_run};
+use vgen::{Design, Port};
+
+/// Engine list of C02 (copied from harness/mon_sim/src/c02.rs `engines()`).
+pub fn engines(with_cc: bool) -> Vec<(String, Config)> {
+    let mut v = vec![];
+    for use_4state in [false, true] {
+        for use_jit in [false, true] {
+            for disable_ff_opt in [false, true] {
+                let name = format!(
+                    "{}{}{}",
+                    if use_jit { "jit" } else { "interp" },
+                    if use_4state { "+4state" } else { "" },
+                    if disable_ff_opt { "+noffopt" } else { "" }
+                );
+                v.push((name, Config { use_4state, use_jit, disable_ff_opt, ..Default::default() }));
+            }
+        }
+    }
+    if with_cc {
+        for disable_ff_opt in [false, true] {
+            let sfx = if disable_ff_opt { "+noffopt" } else { "" };
+            v.push((format!("cc+event{sfx}"), Config { use_jit: true, disable_ff_opt, aot_c: true, aot_c_event: true, ..Default::default() }));
+            v.push((format!("cc-comb-only{sfx}"), Config { use_jit: true, disable_ff_opt, aot_c: true, aot_c_event: false, ..Default::default() }));
+        }
+        v.push(("cc+validate".to_string(), Config { use_jit: true, aot_c: true, aot_c_event: true, aot_c_validate: true, ..Default::default() }));
+    }
+    v
+}
+
+fn engine_family(name: &str) -> String {
+    let base = if name.starts_with("interp") {
+        "interp"
+    } else if name.starts_with("jit") {
+        "jit"
+    } else {
+        "cc"
+    };
+    format!("{base}{}", if name.contains("4state") { "+4state" } else { "" })
+}
+
+#[derive(Clone, Copy, Debug, PartialEq, Eq)]
+pub enum Ctx {
+    Assign,
+    Comb,
+    Ff,
+}
+
+impl Ctx {
+    fn name(self) -> &'static str {
+        match self {
+            Ctx::Assign => "assign",
+            Ctx::Comb => "always_comb",
+            Ctx::Ff => "always_ff",
+        }
+    }
+}
+
+#[derive(Clone, Debug)]
+pub struct OutDecl {
+    pub name: String,
+    pub width: usize,
+    pub signed: bool,
+    pub ctx: Ctx,
+    pub expr: VE,
+}
+
+#[derive(Clone, Debug)]
+pub struct OpDesign {
+    pub ports: Vec<VarDecl>,
+    pub outs: Vec<OutDecl>,
+}
+
+impl OpDesign {
+    pub fn render(&self) -> String {
+        let mut t = String::from("module Top (\n    i_clk: input clock,\n    i_rst: input reset,\n");
+        for p in &self.ports {
+            t.push_str(&format!("    {}: input {},\n", p.name, type_text(p.width, p.signed)));
+        }
+        for o in &self.outs {
+            t.push_str(&format!("    {}: output {},\n", o.name, type_text(o.width, o.signed)));
+        }
+        t.push_str(") {\n");
+        for o in &self.outs {
+            let e = o.expr.render(&self.ports);
+            match o.ctx {
+                Ctx::Assign => t.push_str(&format!("    assign {} = {e};\n", o.name)),
+                Ctx::Comb => t.push_str(&format!("    always_comb {{\n        {} = {e};\n    }}\n", o.name)),
+                Ctx::Ff => t.push_str(&format!(
+                    "    always_ff {{\n        if_reset {{\n            {} = 0;\n        }} else {{\n            {} = {e};\n        }}\n    }}\n",
+                    o.name, o.name
+                )),
+            }
+        }
+        t.push_str("}\n");
+        t
+    }
+    pub fn design(&self) -> Design {
+        Design {
+            text: self.render(),
+            top: "Top".into(),
+            clock: "i_clk".into(),
+            reset: "i_rst".into(),
+            inputs: self.ports.iter().map(|p| Port { name: p.name.clone(), width: p.width, signed: p.signed, output: false }).collect(),
+            outputs: self.outs.iter().map(|o| Port { name: o.name.clone(), width: o.width, signed: o.signed, output: true }).collect(),
+            features: vec![],
+            has_ff: self.outs.iter().any(|o| o.ctx == Ctx::Ff),
+        }
+    }
+    /// The same expressions as compile-time constants with the operands as sized literals.
+    pub fn render_comptime(&self, env: &[Bv]) -> String {
+        let mut t = String::from("module Top {\n");
+        for (p, v) in self.ports.iter().zip(env) {
+            t.push_str(&format!("    const {}: {} = {};\n", p.name, type_text(p.width, p.signed), plain_literal(v).render(&[])));
+        }
+        for o in &self.outs {
+            t.push_str(&format!("    const {}: {} = {};\n", o.name, type_text(o.width, o.signed), o.expr.render(&self.ports)));
+        }
+        t.push_str("}\n");
+        t
+    }
+}
+
+pub fn port_width(rng: &mut Rng) -> usize {
+    match rng.below(10) {
+        0..=4 => *rng.pick(&[63usize, 64, 65, 127, 128, 129, 255, 256, 1, 32, 33]),
+        5 => 1 + rng.usize(16),
+        _ => pick_width(rng, 300),
+    }
+}
+
+pub fn gen_design(rng: &mut Rng, n_outs: usize) -> OpDesign {
+    let ports: Vec<VarDecl> =
+        ["a", "b", "c"].iter().map(|n| VarDecl { name: n.to_string(), width: port_width(rng), signed: rng.chance(2, 5) }).collect();
+    let mut outs = vec![];
+    for k in 0..n_outs {
+        let depth = match rng.below(6) {
+            0 | 1 => 1,
+            2 => 2,
+            3 => 3,
+            4 => 4,
+            _ => 5,
+        };
+        let cfg = GenCfg {
+            vars: ports.clone(),
+            max_lit_width: if rng.chance(1, 3) { 300 } else { 70 },
+            xz: false,
+            fill: true,
+            pow: true,
+            divmod: true,
+            casts: true,
+            sign_funcs: true,
+            var_pct: 70,
+            depth,
+        };
+        let mut expr = Gen::new(rng, cfg).gen_expr(depth, true);
+        // an expression without any port is a constant: wrap it so that it is a run-time one
+        if !expr.has(&|e| matches!(e, VE::Var(_) | VE::Sel(..))) {
+            let i = rng.usize(3);
+            expr = VE::Bin(crate::vexpr::VBin::Xor, Box::new(VE::Var(i)), Box::new(expr));
+        }
+        let (tw, ts) = expr.ty(&ports);
+        let width = match rng.below(6) {
+            0 | 1 => tw,
+            2 => (tw + 1 + rng.usize(40)).min(400),
+            3 => 1 + rng.usize(tw),
+            4 => port_width(rng),
+            _ => tw + rng.usize(3),
+        }
+        .clamp(1, 400);
+        let signed = if rng.chance(2, 3) { ts } else { rng.bool() };
+        let ctx = match k % 3 {
+            0 => Ctx::Assign,
+            1 => Ctx::Comb,
+            _ => Ctx::Ff,
+        };
+        outs.push(OutDecl { name: format!("o{k}"), width, signed, ctx, expr });
+    }
+    OpDesign { ports, outs }
+}
+
+fn bv_to_tval(b: &Bv) -> TVal {
+    let (p, m) = b.to_words();
+    TVal { width: b.width(), payload: p, xz: m }
+}
+
+fn tval_to_bv(t: &TVal, signed: bool) -> Bv {
+    Bv::from_words(&t.payload, &t.xz, t.width, signed)
+}
+
+/// First two cycles in reset, then one value set per cycle.
+pub fn gen_stimulus(rng: &mut Rng, d: &OpDesign, sets: usize) -> (Stimulus, Vec<Vec<Bv>>) {
+    let mut cycles = vec![];
+    let mut envs = vec![];
+    for c in 0..sets + 2 {
+        let env: Vec<Bv> = d.ports.iter().map(|p| pick_known(rng, p.width, p.signed)).collect();
+        cycles.push(CycleIn { reset: c < 2, inputs: env.iter().map(bv_to_tval).collect() });
+        envs.push(env);
+    }
+    (Stimulus { cycles }, envs)
+}
+
+#[derive(Default)]
+pub struct CaseOut {
+    pub status: String,
+    pub codes: Vec<String>,
+    pub text: String,
+    pub n_exprs: usize,
+    pub engines_run: Vec<String>,
+    pub engine_errors: Vec<(String, String)>,
+    pub comparisons: u64,
+    pub skipped_xz_2state: u64,
+    pub xz_compared_4state: u64,
+    pub alt_reading_only: u64,
+    pub comptime_compared: u64,
+    pub comptime_status: String,
+    pub tags: Vec<String>,
+    pub widths_over_64: u64,
+    pub widths_over_128: u64,
+    /// (signature, what, replay)
+    pub bad: Vec<(String, String, Json)>,
+}
+
+fn accept(text: &str) -> Result<vcommon::pipeline::Analyzed, (String, Vec<String>)> {
+    let md = default_metadata();
+    match analyze_one(text, &md) {
+        Err(e) => Err((format!("parse_error: {e:?}"), vec![])),
+        Ok(a) => {
+            let codes: Vec<String> = a.error_codes().into_iter().filter(|c| !c.contains("unsigned_arith_shift") && !c.contains("invalid_logical_operand")).collect();
+            if codes.is_empty() { Ok(a) } else { Err(("rejected".into(), codes)) }
+        }
+    }
+}
+
+/// Value `engine` computes for a one-output design holding `expr` (inputs = `env`); None = not simulated.
+fn single_value(ports: &[VarDecl], out: &OutDecl, expr: &VE, env: &[Bv], cfg: &Config) -> Option<Bv> {
+    let d = OpDesign { ports: ports.to_vec(), outs: vec![OutDecl { expr: expr.clone(), name: "o0".into(), ..out.clone() }] };
+    let design = d.design();
+    let env2 = env.to_vec();
+    let cfg = cfg.clone();
+    let signed = out.signed;
+    fresh_thread(STACK_64M, move || {
+        let a = accept(&design.text).ok()?;
+        let inputs: Vec<TVal> = env2.iter().map(bv_to_tval).collect();
+        let stim = Stimulus {
+            cycles: vec![CycleIn { reset: true, inputs: inputs.clone() }, CycleIn { reset: true, inputs: inputs.clone() }, CycleIn { reset: false, inputs: inputs.clone() }],
+        };
+        let r = std::panic::catch_unwind(std::panic::AssertUnwindSafe(|| sim_run(&a.ir, &design, &cfg, &stim)));
+        let Ok(Ok(t)) = r else { return None };
+        Some(tval_to_bv(&t.steps[2][0], signed))
+    })
+    .ok()
+    .flatten()
+}
+
+/// For the reducer: does `engine` still disagree with every accepted IEEE reading on `env`?
+fn single_fails(ports: &[VarDecl], out: &OutDecl, expr: &VE, env: &[Bv], cfg: &Config) -> bool {
+    let Some(got) = single_value(ports, out, expr, env, cfg) else { return false };
+    let exp = expr.expected_all(env, out.width, out.signed);
+    if !cfg.use_4state && exp[0].has_xz() {
+        return false;
+    }
+    !exp.iter().any(|e| e.bits == got.bits)
+}
+
+/// Coarse, stable class of a minimal failing expression (one of a fixed vocabulary).
+fn expr_class(e: &VE, ports: &[VarDecl]) -> String {
+    if let VE::Sel(..) = e {
+        return "bare-select".into();
+    }
+    let tags = e.tags();
+    let has = |p: &str| tags.iter().any(|t| t == p);
+    let starts = |p: &str| tags.iter().any(|t| t.starts_with(p));
+    if e.has(&|x| matches!(x, VE::Cond(..))) {
+        return "if-expression".into();
+    }
+    if starts("as_u") || starts("as_i") {
+        return "type-cast".into();
+    }
+    if has("as_n") {
+        return "size-cast".into();
+    }
+    if has("$signed") || has("$unsigned") {
+        return "sign-function".into();
+    }
+    if e.has(&|x| matches!(x, VE::Sel(i, _, _) if ports[*i].signed)) {
+        return "select-of-signed-port".into();
+    }
+    for (class, ops) in [
+        ("pow", &["bin**"][..]),
+        ("shift", &["bin<<", "bin>>", "bin<<<", "bin>>>"][..]),
+        ("logical", &["bin&&", "bin||", "un!"][..]),
+        ("reduction", &["un&", "un|", "un^", "un~&", "un~|", "un~^"][..]),
+        ("compare", &["bin==", "bin!=", "bin==?", "bin!=?", "bin<:", "bin<=", "bin>:", "bin>="][..]),
+        ("divide", &["bin/", "bin%"][..]),
+        ("arithmetic", &["bin+", "bin-", "bin*", "un-", "un+"][..]),
+        ("bitwise", &["bin&", "bin|", "bin^", "bin~^", "un~"][..]),
+        ("concat", &["concat", "repeat"][..]),
+    ] {
+        if ops.iter().any(|o| has(o)) {
+            return class.into();
+        }
+    }
+    let _ = ports;
+    "operand".into()
+}
+
+/// Which engines fail: all, only compiled ones (jit/cc, the interpreter is right), only 4-state ones, …
+fn engine_scope(failing: &[String], all_run: usize) -> String {
+    if failing.len() == all_run {
+        return "all-engines".into();
+    }
+    let mut fams: Vec<String> = failing.iter().map(|x| engine_family(x)).collect();
+    fams.sort();
+    fams.dedup();
+    let interp = fams.iter().any(|f| f.starts_with("interp"));
+    let only4 = fams.iter().all(|f| f.ends_with("4state"));
+    if !interp {
+        return if only4 { "compiled-4state".into() } else { "compiled".into() };
+    }
+    if only4 {
+        return "4state".into();
+    }
+    fams.join(",")
+}
+
+pub fn run_case(seed: u64, i: u64, n_outs: usize, sets: usize, with_cc: bool, comptime_sets: usize) -> CaseOut {
+    let mut rng = Rng::for_case(seed, "C18", i);
+    let d = gen_design(&mut rng, n_outs);
+    let (stim, envs) = gen_stimulus(&mut rng, &d, sets);
+    run_design(&d, &stim, &envs, with_cc, comptime_sets, i)
+}
+
+pub fn run_design(d: &OpDesign, stim: &Stimulus, envs: &[Vec<Bv>], with_cc: bool, comptime_sets: usize, case_index: u64) -> CaseOut {
+    let design = d.design();
+    let mut out = CaseOut { text: design.text.clone(), n_exprs: d.outs.len(), ..Default::default() };
+    let a = match accept(&design.text) {
+        Ok(a) => a,
+        Err((s, codes)) => {
+            out.status = s;
+            out.codes = codes;
+            return out;
+        }
+    };
+    out.status = "ok".into();
+    for o in &d.outs {
+        out.tags.extend(o.expr.tags());
+        out.tags.push(format!("ctx:{}", o.ctx.name()));
+        if o.width > 64 {
+            out.widths_over_64 += 1;
+        }
+        if o.width > 128 {
+            out.widths_over_128 += 1;
+        }
+    }
+    out.tags.sort();
+    out.tags.dedup();
+    // expected values per cycle and output (all accepted readings)
+    let expected: Vec<Vec<Vec<Bv>>> = envs.iter().map(|env| d.outs.iter().map(|o| o.expr.expected_all(env, o.width, o.signed)).collect()).collect();
+
+    // failures: (output index, cycle) → engines that disagree, with their value
+    let mut fails: std::collections::BTreeMap<(usize, usize), Vec<(String, Config, Bv)>> = Default::default();
+    let mut engine_count = 0;
+    for (name, cfg) in engines(with_cc) {
+        let r = std::panic::catch_unwind(std::panic::AssertUnwindSafe(|| sim_run(&a.ir, &design, &cfg, stim)));
+        let t: Trace = match r {
+            Err(p) => {
+                let msg = p.downcast_ref::<&str>().map(|s| s.to_string()).or_else(|| p.downcast_ref::<String>().cloned()).unwrap_or("<panic>".into());
+                out.bad.push((
+                    format!("engine-panic:{}", engine_family(&name)),
+                    format!("engine {name} panicked on an operator design: {}", msg.lines().next().unwrap_or("").chars().take(160).collect::<String>()),
+                    json!({"case_index": case_index, "design": design.text, "engine": name, "panic": msg.chars().take(600).collect::<String>()}),
+                ));
+                continue;
+            }
+            Ok(Err(e)) => {
+                out.engine_errors.push((name, e.lines().next().unwrap_or("").to_string()));
+                continue;
+            }
+            Ok(Ok(t)) => t,
+        };
+        engine_count += 1;
+        out.engines_run.push(name.clone());
+        for (c, row) in t.steps.iter().enumerate() {
+            if stim.cycles[c].reset {
+                continue;
+            }
+            for (oi, o) in d.outs.iter().enumerate() {
+                let exp = &expected[c][oi];
+                if exp[0].has_xz() {
+                    if !cfg.use_4state {
+                        out.skipped_xz_2state += 1;
+                        continue;
+                    }
+                    out.xz_compared_4state += 1;
+                }
+                let got = tval_to_bv(&row[oi], o.signed);
+                out.comparisons += 1;
+                match exp.iter().position(|e| e.bits == got.bits) {
+                    Some(0) => {}
+                    Some(_) => out.alt_reading_only += 1,
+                    None => fails.entry((oi, c)).or_default().push((name.clone(), cfg.clone(), got)),
+                }
+            }
+        }
+    }
+    let _ = engine_count;
+
+    // report: one (reduced) violation per failing output, first failing cycle
+    let mut done_outputs = std::collections::HashSet::new();
+    for ((oi, c), list) in &fails {
+        if !done_outputs.insert(*oi) || out.bad.len() >= 4 {
+            continue;
+        }
+        let o = &d.outs[*oi];
+        let env = &envs[*c];
+        let who = engine_scope(&list.iter().map(|x| x.0.clone()).collect::<Vec<_>>(), out.engines_run.len());
+        let (ename, ecfg, got) = &list[0];
+        let min = reduce(&o.expr, &d.ports, env, o.width, 60, &mut |cand| single_fails(&d.ports, o, cand, env, ecfg));
+        let exp_min = min.expected_all(env, o.width, o.signed);
+        let got_min = single_value(&d.ports, o, &min, env, ecfg);
+        let class = expr_class(&min, &d.ports);
+        let kind = if value_kind(got) == "xz" || value_kind(&expected[*c][*oi][0]) == "xz" { "xz" } else { "known" };
+        let used: Vec<String> =
+            d.ports.iter().zip(env).enumerate().filter(|(k, _)| min.uses_var(*k)).map(|(_, (p, v))| format!("{}={}'{}b{}", p.name, p.width, if p.signed { "s" } else { "" }, v.to_bitstr())).collect();
+        out.bad.push((
+            format!("sim:{who}:{class}:{kind}"),
+            format!(
+                "{} {}: {} = {} with {} → engine {ename} gives {} ; IEEE {} (minimal failing expression: {} → engine {} ; IEEE {})",
+                o.ctx.name(),
+                type_text(o.width, o.signed),
+                o.name,
+                clip(&o.expr.render(&d.ports)),
+                clip(&used.join(" ")),
+                clip(&got.to_bitstr()),
+                clip(&expected[*c][*oi].iter().map(|e| e.to_bitstr()).collect::<Vec<_>>().join(" or ")),
+                clip(&min.render(&d.ports)),
+                clip(&got_min.as_ref().map(|g| g.to_bitstr()).unwrap_or("?".into())),
+                clip(&exp_min[0].to_bitstr()),
+            ),
+            json!({"case_index": case_index, "design": design.text, "output": o.name, "cycle": c, "engines": list.iter().map(|x| x.0.clone()).collect::<Vec<_>>(),
+                   "inputs": d.ports.iter().zip(env).map(|(p, v)| json!({"name": p.name, "value": v.to_bitstr()})).collect::<Vec<_>>(),
+                   "engine_value": got.to_bitstr(), "ieee": expected[*c][*oi].iter().map(|e| e.to_bitstr()).collect::<Vec<_>>(),
+                   "minimal_expression": min.render(&d.ports), "minimal_ieee": exp_min[0].to_bitstr(), "minimal_engine_value": got_min.as_ref().map(|g| g.to_bitstr()),
+                   "minimal_design": OpDesign { ports: d.ports.clone(), outs: vec![OutDecl { expr: min.clone(), name: "o0".into(), ..o.clone() }] }.render()}),
+        ));
+    }
+
+    // comptime leg: same expressions, operands as constants
+    let mut ct_bad: Vec<(String, String, Json)> = vec![];
+    for c in (2..envs.len()).take(comptime_sets) {
+        let text = d.render_comptime(&envs[c]);
+        let t2 = text.clone();
+        let names: Vec<String> = d.outs.iter().map(|o| o.name.clone()).collect();
+        let vals = fresh_thread(STACK_64M, move || {
+            let md = default_metadata();
+            let a = analyze_one(&t2, &md).ok()?;
+            if !a.error_codes().is_empty() {
+                return None;
+            }
+            let vars = module_vars(&a, "Top");
+            Some(names.iter().map(|n| vars.get(n).and_then(|(_, v)| v.first()).and_then(value_to_bv)).collect::<Vec<_>>())
+        });
+        let Ok(Some(vals)) = vals else {
+            out.comptime_status = "rejected_or_panic".into();
+            continue;
+        };
+        out.comptime_status = "ok".into();
+        for (oi, o) in d.outs.iter().enumerate() {
+            let Some(got) = &vals[oi] else { continue };
+            out.comptime_compared += 1;
+            let exp = &expected[c][oi];
+            if !exp.iter().any(|e| e.bits == got.bits) && ct_bad.len() < 2 {
+                ct_bad.push((
+                    format!("comptime:{}", expr_class(&o.expr, &d.ports)),
+                    format!(
+                        "compile-time value of {} = {} differs: analyzer {} ; IEEE {} (C17 judges compile-time evaluation in depth)",
+                        o.name,
+                        clip(&o.expr.render(&d.ports)),
+                        clip(&got.to_bitstr()),
+                        clip(&exp[0].to_bitstr())
+                    ),
+                    json!({"case_index": case_index, "comptime_text": text, "output": o.name, "analyzer": got.to_bitstr(), "ieee": exp.iter().map(|e| e.to_bitstr()).collect::<Vec<_>>()}),
+                ));
+            }
+        }
+    }
+    out.bad.extend(ct_bad);
+    out
+}
+
+fn clip(s: &str) -> String {
+    if s.chars().count() <= 140 { s.to_string() } else { format!("{}…{}", s.chars().take(60).collect::<String>(), s.chars().rev().take(60).collect::<Vec<_>>().into_iter().rev().collect::<String>()) }
+}
+
+pub fn main(args: Args) {
+    let run = Arc::new(Run::new(
+        args.clone(),
+        "exploration",
+        "cases = OpGen designs: ports a,b,c of widths 1..300 (half of them at 63/64/65/127/128/129/255/256/1/32/33), signed or unsigned, \
+         6 outputs each driven by a generated expression (depth 1..5; all unary/binary operators, selects, concat/repeat, size and type casts, \
+         $signed/$unsigned, if-expressions, shifts by wide amounts, bounded ** exponents) in assign / always_comb / always_ff, output width = \
+         context (self width, wider, narrower, word boundary); each design runs boundary-biased random 2-state value sets under every engine \
+         Config; expected = bv4 with IEEE §11.6/§11.8 sizing; a subset of value sets is also evaluated at compile time (operands as consts). \
+         non-trivial = accepted by the analyzer and simulated by >= 4 engines; distinct = distinct design texts",
+    ));
+    run.assume("refmodel::bv4 implements IEEE 1800-2017 §11 (self-tested at start)");
+    run.assume("2-state engines are not compared when the IEEE result contains X/Z (division by zero, 0 ** negative); 4-state engines are");
+    run.assume("readings accepted for constructs the sources leave open: signedness of `x as N`, '0/'1 sign-neutral (see notes/C17.md)");
+    match bv4::self_test() {
+        Ok(n) => run.count("bv4_self_test_checks", n as i64),
+        Err(e) => {
+            run.inconclusive(format!("bv4 self-test failed: {e}"));
+            run.finish(&[]);
+        }
+    }
+    let cc_ok = veryl_simulator::backend::aot_c::cc_available() && args.get("no_cc").is_none();
+    if !cc_ok {
+        run.inconclusive("cc backend unavailable: the cc engines were not exercised".into());
+    }
+    let n_outs = args.budget("outputs", 6, 6) as usize;
+    let sets = args.budget("value_sets", 20, 50) as usize;
+    let comptime_sets = args.budget("comptime_sets", 2, 4) as usize;
+    let cc_every = args.budget("cc_every", 5, 4);
+    let seed = args.seed;
+
+    if let Some(rp) = &args.replay {
+        let v: Json = serde_json::from_str(&std::fs::read_to_string(rp).expect("replay")).unwrap();
+        let i = v["case"]["case_index"].as_u64().expect("case_index");
+        let s = v["seed"].as_u64().unwrap_or(seed);
+        let o = fresh_thread(STACK_64M, move || run_case(s, i, n_outs, sets, cc_ok, comptime_sets));
+        report(&run, i, o);
+        run.finish(&[]);
+    }
+
+    let n = args.budget("designs", 100, 17_000);
+    let run2 = run.clone();
+    par_cases(n, args.jobs, STACK_64M, move |i| run_case(seed, i, n_outs, sets, cc_ok && i % cc_every == 0, comptime_sets), move |i, r| report(&run2, i, r));
+    run.finish(&[
+        ("designs_simulated", 40),
+        ("expressions_simulated", 240),
+        ("output_value_comparisons", 30_000),
+        ("engines", if cc_ok { 11 } else { 8 }),
+        ("outputs_wider_than_64", 60),
+        ("outputs_wider_than_128", 25),
+        ("comptime_values_compared", 200),
+        ("constructs", 40),
+    ]);
+}
+
+fn report(run: &Run, i: u64, r: Result<CaseOut, vcommon::pool::PanicInfo>) {
+    run.eval();
+    match r {
+        Err(p) => {
+            run.count("cases_panicked_outside_engines_not_judged", 1);
+            run.note(format!("case {i}: panic at {}: {}", p.location, p.message.chars().take(200).collect::<String>()));
+        }
+        Ok(o) => {
+            if o.status != "ok" {
+                let key = o.status.split(':').next().unwrap_or("other").to_string();
+                run.count(&format!("not_simulated_{key}"), 1);
+                for c in &o.codes {
+                    run.seen("reject_codes", c);
+                }
+                if key == "parse_error" {
+                    run.note(format!("case {i}: generator produced unparsable text"));
+                }
+                return;
+            }
+            run.count("designs_simulated", 1);
+            run.count("expressions_simulated", o.n_exprs as i64);
+            run.count("output_value_comparisons", o.comparisons as i64);
+            run.count("comparisons_skipped_xz_result_in_2state_engine", o.skipped_xz_2state as i64);
+            run.count("comparisons_with_xz_result_in_4state_engine", o.xz_compared_4state as i64);
+            run.count("comparisons_accepted_by_alternative_reading_only", o.alt_reading_only as i64);
+            run.count("comptime_values_compared", o.comptime_compared as i64);
+            run.count("outputs_wider_than_64", o.widths_over_64 as i64);
+            run.count("outputs_wider_than_128", o.widths_over_128 as i64);
+            for e in &o.engines_run {
+                run.seen("engines", e);
+            }
+            for t in &o.tags {
+                run.seen("constructs", t);
+            }
+            for (e, msg) in &o.engine_errors {
+                run.count("engine_build_errors", 1);
+                run.note(format!("case {i}: engine {e} refused an accepted design: {msg}"));
+            }
+            if o.engines_run.len() >= 4 {
+                run.nontrivial(hash_str(&o.text));
+            }
+            if i % 9 == 0 {
+                run.sample(json!({"case_index": i, "engines": o.engines_run.len(), "comparisons": o.comparisons, "design": o.text}));
+            }
+            for (sig, what, j) in o.bad {
+                if let Ok(path) = std::env::var("VERIF_OPS_DUMP") {
+                    use std::io::Write;
+                    if let Ok(mut f) = std::fs::OpenOptions::new().create(true).append(true).open(path) {
+                        let _ = writeln!(f, "{}", json!({"signature": sig, "what": what, "case": j}));
+                    }
+                }
+                run.seen("mismatch_signatures", &sig);
+                run.violation(&sig, &what, j);
+            }
+        }
+    }
+}
